@@ -36,6 +36,9 @@ structure TMpsc where
   txCount : Nat := 1
   txBusy : Nat := 0
   rxPresent : Bool := true
+  /-- which `blocking_recv` this channel runs: the tree's (false, F4) or the repaired one (object
+  declared as `tmpsc cap:<k> fixedF4`, for runs against a patched crate) -/
+  fixedF4 : Bool := false
 deriving Repr, Inhabited
 
 def usizeMax : Nat := 2 ^ 64 - 1
@@ -265,7 +268,7 @@ def withReceiver (L : Lens U TMpsc) (body : Prog U (String × Bool)) : Prog U St
   pure r
 
 /-- one mpsc operation of the IR; `mode = once` for `t_poll_once <op>` -/
-def op (fixedF4 : Bool) (mode : AwaitMode) (L : Lens U TMpsc) (name : String) (v : Nat) : Prog U String :=
+def op (mode : AwaitMode) (L : Lens U TMpsc) (name : String) (v : Nat) : Prog U String :=
   match name with
   | "tsend" | "tblocking_send" => do
     let s ← K.getL L
@@ -305,7 +308,8 @@ def op (fixedF4 : Bool) (mode : AwaitMode) (L : Lens U TMpsc) (name : String) (v
       let r ← tryRecv L
       pure (match r with | .ok v => s!"v:{v}" | .empty => "err:empty" | .disconnected => "err:disconnected", true))
   | "tblocking_recv" => withReceiver L (do
-      let r ← blockingRecv fixedF4 L
+      let s ← K.getL L
+      let r ← blockingRecv s.fixedF4 L
       pure (optStr r, true))
   | "tclose" => withReceiver L (do closeRx L; pure ("ok", true))
   | "tlen" => withReceiver L (do let s ← K.getL L; pure (s!"v:{s.messages.length}", true))
